@@ -70,7 +70,7 @@ var (
 	cFC = []uint32{ErrFlowControl}
 )
 
-const nProbeKinds = 46
+const nProbeKinds = 49
 
 // buildProbe constructs probe number k in the current connection state.
 func buildProbe(t *rapid.T, x *c13Ctx, k int) *probe {
@@ -252,6 +252,11 @@ func buildProbe(t *rapid.T, x *c13Ctx, k int) *probe {
 		// the fork advertises SETTINGS_MAX_FRAME_SIZE = 1 MiB (checked at run time)
 		return &probe{Name: "frame larger than the advertised SETTINGS_MAX_FRAME_SIZE", Kind: "conn", Codes: cFS,
 			Frames: []Frame{{Type: 0xee, Stream: 0, Payload: make([]byte, 1<<20+1)}}}
+	case 46, 47, 48:
+		// the server never pushes: every even id stays idle for ever, also below the highest client stream
+		even := x.half + 1
+		fr := []Frame{DataFrame(even, []byte("x"), false, -1), RSTFrame(even, ErrCancel), WindowUpdateFrame(even, 5)}[k-46]
+		return &probe{Name: "frame on an idle even stream below the highest client stream: " + fr.String(), Kind: "conn", Codes: cP, Frames: []Frame{fr}}
 	}
 	panic("no such probe")
 }
@@ -319,7 +324,22 @@ func drawC13(t *rapid.T) *Case {
 		aux.LimitID = x.newID()
 		write(x.request(aux.LimitID, tag, "GET", true, false)...)
 		aux.Probes = []*probe{{Name: "HEADERS beyond the advertised concurrency limit", Kind: "stream", Stream: aux.LimitID, Codes: []uint32{ErrProtocol, ErrRefusedStream}, BadTag: tag}}
-		steps = append(steps, Step{Kind: "h2await", Streams: []uint32{aux.LimitID}}, Step{Kind: "close"})
+		steps = append(steps, Step{Kind: "h2await", Streams: []uint32{aux.LimitID}})
+		// the refused stream is closed, not idle: further frames on it are not a connection error ...
+		follow := []Frame{DataFrame(aux.LimitID, []byte("late"), true, -1), RSTFrame(aux.LimitID, ErrCancel), WindowUpdateFrame(aux.LimitID, 9), PriorityFrame(aux.LimitID, PrioParam{Weight: 1})}[rapid.IntRange(0, 3).Draw(t, "follow")]
+		write(follow, PingFrame(false, [8]byte{0xfc, 1}))
+		steps = append(steps, Step{Kind: "h2ping"})
+		aux.Probes = append(aux.Probes, &probe{Name: "frame on the refused (closed) stream: " + follow.String(), Kind: "legal_or_stream", Stream: aux.LimitID})
+		if drawBool(t, "reuse", 50) {
+			// ... and its id cannot be used again
+			tag2 := x.tag()
+			aux.ConnIdx = len(aux.Probes)
+			aux.Probes = append(aux.Probes, &probe{Name: "second HEADERS on the id of the refused stream", Kind: "conn", Codes: []uint32{ErrProtocol, ErrStreamClosed}, BadTag: tag2,
+				Frames: HeadersFrames(aux.LimitID, x.enc.Block(x.fields(tag2, "GET")), true, nil, -1, nil)})
+			write(aux.Probes[aux.ConnIdx].Frames...)
+			steps = append(steps, Step{Kind: "readeof"})
+		}
+		steps = append(steps, Step{Kind: "close"})
 		cp.Steps = steps
 		p.Clients = []*ClientPlan{cp}
 		p.Tape, p.Tail = drawTape(t, 16)
@@ -524,6 +544,9 @@ func oracleC13(w *World, c *Case) {
 			} else {
 				w.Probe("connection_error_answered")
 			}
+		case "legal_or_stream":
+			// a frame on a closed stream: ignoring it or a stream error are both fine,
+			// a connection error is not (judged below: no conn probe => no GOAWAY error)
 		case "legal":
 			if pr.Ping != nil && !pingAcks[*pr.Ping] && connErr == nil {
 				w.Violate("ping_not_acked", "ping_not_acked", "PING %x was not acknowledged with the same payload | %s", *pr.Ping, desc)
